@@ -196,7 +196,7 @@ static uint64_t alias_arg(Rng & r, Kind k, uint64_t v, AliasKind & kind)
     }
   }
 
-struct Item { uint8_t client; uint16_t op; uint64_t a, b; uint8_t alias; int16_t alias_of; };
+struct Item { uint8_t client; uint16_t op; uint64_t a, b; uint8_t alias; int16_t alias_of; int32_t fail_alloc = 0; };   // fail_alloc n > 0: the n-th allocation this call requests fails
 struct Plan { int clients; std::vector<Item> items; std::vector<std::pair<uint32_t, uint8_t>> respawn; uint64_t hash; bool nontrivial; };
 
 static Plan gen_plan(uint64_t seed, int min_clients)
@@ -376,6 +376,28 @@ static std::vector<AccessRec> g_access;
 static const size_t ACCESS_PER_CALL = 96, ACCESS_TOTAL = 400000;
 static thread_local size_t tl_access_begin = 0;
 
+// ---- the one fault kind: allocation failure inside a library call (DESIGN 9.5) ----------------------------------
+static uint64_t g_alloc_in_calls = 0, g_alloc_failed = 0;
+static thread_local int32_t tl_alloc_seen = 0, tl_alloc_fail_at = 0;
+static inline bool hsim_alloc_should_fail()
+  {
+  if (!tl_in_call) return false;
+  ++g_alloc_in_calls;
+  if (tl_alloc_fail_at > 0 && ++tl_alloc_seen == tl_alloc_fail_at) { ++g_alloc_failed; errno = ENOMEM; return true; }
+  return false;
+  }
+extern "C"
+  {
+  void * __libc_malloc(size_t); void * __libc_calloc(size_t, size_t); void * __libc_realloc(void *, size_t); void * __libc_memalign(size_t, size_t);
+  void * malloc(size_t n) { return hsim_alloc_should_fail() ? nullptr : __libc_malloc(n); }
+  void * calloc(size_t a, size_t b) { return hsim_alloc_should_fail() ? nullptr : __libc_calloc(a, b); }
+  void * realloc(void * p, size_t n) { return hsim_alloc_should_fail() ? nullptr : __libc_realloc(p, n); }
+  void * memalign(size_t al, size_t n) { return hsim_alloc_should_fail() ? nullptr : __libc_memalign(al, n); }
+  void * aligned_alloc(size_t al, size_t n) { return hsim_alloc_should_fail() ? nullptr : __libc_memalign(al, n); }
+  int posix_memalign(void ** out, size_t al, size_t n)
+    { if (hsim_alloc_should_fail()) return ENOMEM; void * p = __libc_memalign(al, n); if (!p) return ENOMEM; *out = p; return 0; }
+  }
+
 static void on_signal(int sig)
   {
   if (tl_armed) { tl_armed = 0; siglongjmp(tl_env, sig); }
@@ -487,7 +509,7 @@ static Res call_once(const Item & it)
   int sig = sigsetjmp(tl_env, 1);
   if (sig == 0)
     {
-    tl_armed = 1; tl_yield_idx = 0; tl_access_begin = g_access.size(); tl_item = static_cast<int>(&it - g_items_base); tl_in_call = true;
+    tl_armed = 1; tl_yield_idx = 0; tl_access_begin = g_access.size(); tl_item = static_cast<int>(&it - g_items_base); tl_alloc_seen = 0; tl_alloc_fail_at = it.fail_alloc; tl_in_call = true;
     uint64_t v = g_ops[it.op].fn(it.a, it.b);
     tl_in_call = false; tl_armed = 0;
     r.status = 0; r.bits = v;
@@ -539,7 +561,7 @@ static void write_all(int fd, const void * p, size_t n)
   {
   struct sigaction sa{};
   sa.sa_handler = on_signal; sigemptyset(&sa.sa_mask); sa.sa_flags = SA_NODEFER;
-  sigaction(SIGFPE, &sa, nullptr); sigaction(SIGSEGV, &sa, nullptr); sigaction(SIGBUS, &sa, nullptr); sigaction(SIGILL, &sa, nullptr);
+  sigaction(SIGFPE, &sa, nullptr); sigaction(SIGSEGV, &sa, nullptr); sigaction(SIGBUS, &sa, nullptr); sigaction(SIGILL, &sa, nullptr); sigaction(SIGABRT, &sa, nullptr);
   sem_init(&g_done, 0, 0);
   pthread_t th[MAX_CLIENTS];
   for (int c = 0; c < sc.clients; ++c)
@@ -595,7 +617,7 @@ static void write_all(int fd, const void * p, size_t n)
     g_fine.active = false;
     for (int k : g.items) out[k] = g_slots[sc.items[k].client].res;
     }
-  uint64_t hdr[5] = {g_fine.trace.size(), g_fine.yields, g_fine.switches, g_threads_started, g_access.size()};
+  uint64_t hdr[7] = {g_fine.trace.size(), g_fine.yields, g_fine.switches, g_threads_started, g_access.size(), g_alloc_in_calls, g_alloc_failed};
   write_all(fd, out.data(), out.size() * sizeof(Res));
   write_all(fd, hdr, sizeof hdr);
   if (!g_fine.trace.empty()) write_all(fd, g_fine.trace.data(), g_fine.trace.size() * sizeof(TraceRec));
@@ -605,8 +627,9 @@ static void write_all(int fd, const void * p, size_t n)
 
 // ---------------------------------------------------------------------------------------------
 // zygote side
+static uint64_t g_allocs_total = 0, g_alloc_failures_total = 0;
 static uint64_t g_forks = 0, g_hung = 0, g_yields_total = 0, g_switches_total = 0, g_threads_total = 0, g_threads_max = 0;
-struct Outcome { std::vector<Res> res; std::vector<TraceRec> trace; std::vector<AccessRec> access; bool complete; };
+struct Outcome { std::vector<Res> res; std::vector<TraceRec> trace; std::vector<AccessRec> access; bool complete; uint64_t allocs = 0, alloc_failures = 0; };
 
 static bool read_all(int fd, void * p, size_t n, int timeout_ms)
   {
@@ -636,7 +659,7 @@ static Outcome run_schedule(const Schedule & sc, bool scripted, uint64_t sched_s
   if (pid == 0) { close(pf[0]); child_execute(sc, scripted, sched_seed, pf[1]); }
   close(pf[1]);
   Outcome o; o.res.assign(sc.items.size(), Res{255, 0, 0}); o.complete = false;
-  uint64_t hdr[5] = {0, 0, 0, 0, 0};
+  uint64_t hdr[7] = {0, 0, 0, 0, 0, 0, 0};
   const int limit_ms = 10000;
   if (read_all(pf[0], o.res.data(), o.res.size() * sizeof(Res), limit_ms) && read_all(pf[0], hdr, sizeof hdr, limit_ms))
     {
@@ -644,6 +667,7 @@ static Outcome run_schedule(const Schedule & sc, bool scripted, uint64_t sched_s
     o.access.resize(hdr[4]);
     if ((hdr[0] == 0 || read_all(pf[0], o.trace.data(), hdr[0] * sizeof(TraceRec), limit_ms)) &&
         (hdr[4] == 0 || read_all(pf[0], o.access.data(), hdr[4] * sizeof(AccessRec), limit_ms))) o.complete = true;
+    o.allocs = hdr[5]; o.alloc_failures = hdr[6]; g_allocs_total += hdr[5]; g_alloc_failures_total += hdr[6];
     g_yields_total += hdr[1]; g_switches_total += hdr[2]; g_threads_total += hdr[3]; if (hdr[3] > g_threads_max) g_threads_max = hdr[3];
     }
   close(pf[0]);
@@ -657,7 +681,7 @@ static std::vector<Res> run_serial(const std::vector<Item> & items, const std::v
 
 static Res isolated(const Item & it)
   {
-  std::vector<Item> one{it}; one[0].client = 0;
+  std::vector<Item> one{it}; one[0].client = 0; one[0].fail_alloc = 0;
   return run_serial(one, std::vector<int>{0}, 1)[0];
   }
 
@@ -675,6 +699,10 @@ static bool fails(const Schedule & sc, int victim, const Res & iso, Res * seen)
   ++g_tests;
   Outcome o = run_schedule(sc, true, 0);
   if (seen) *seen = o.res[victim];
+  bool faulted = false;
+  for (const Segment & g : sc.segs) for (int k : g.items) if (sc.items[k].fail_alloc > 0) faulted = true;
+  // under an injected allocation failure a call may die; only "returned normally with other bits" counts
+  if (faulted && o.res[victim].status != 0) return false;
   return o.complete && o.res[victim].status != 255 && !same(o.res[victim], iso);
   }
 
@@ -777,7 +805,7 @@ static std::string schedule_json(const Schedule & sc, int victim)
     if (si > 0 && g.items.size() == 1 && g.respawn.empty() && sc.segs[si - 1].items.size() == 1 && g.items[0] != victim && sc.segs[si - 1].items[0] != victim)
       {
       const Item & x = sc.items[g.items[0]]; const Item & y = sc.items[sc.segs[si - 1].items[0]];
-      if (x.client == y.client && x.op == y.op && x.a == y.a && x.b == y.b) { ++pending_repeat; continue; }
+      if (x.client == y.client && x.op == y.op && x.a == y.a && x.b == y.b && !x.fail_alloc && !y.fail_alloc) { ++pending_repeat; continue; }
       }
     if (!first_seg) { s += ",\"repeat\":" + std::to_string(pending_repeat) + "}"; ++out_segs; }
     pending_repeat = 1; first_seg = false;
@@ -788,7 +816,7 @@ static std::string schedule_json(const Schedule & sc, int victim)
       {
       const Item & it = sc.items[g.items[k]];
       if (g.items[k] == victim) { vseg = out_segs; vpos = static_cast<int>(k); }
-      s += std::string(k ? "," : "") + "{\"client\":" + std::to_string(ren[it.client]) + ",\"op\":\"" + g_ops[it.op].name + "\",\"a\":\"" + hex(it.a) + "\",\"b\":\"" + hex(it.b) + "\"}";
+      s += std::string(k ? "," : "") + "{\"client\":" + std::to_string(ren[it.client]) + ",\"op\":\"" + g_ops[it.op].name + "\",\"a\":\"" + hex(it.a) + "\",\"b\":\"" + hex(it.b) + "\"" + (it.fail_alloc > 0 ? ",\"fail_alloc\":" + std::to_string(it.fail_alloc) : std::string()) + "}";
       }
     s += "],\"script\":[";
     bool first = true;
@@ -838,7 +866,7 @@ struct Stats
   {
   std::vector<uint64_t> per_op;
   uint64_t clients_hist[9] = {0, 0, 0, 0, 0, 0, 0, 0, 0};
-  uint64_t crowd_runs = 0, hot_loop_runs = 0;
+  uint64_t crowd_runs = 0, hot_loop_runs = 0, plans_with_allocations = 0, fault_execs = 0;
   uint64_t long_runs = 0, very_long_runs = 0, churn_runs = 0, respawns = 0, max_plan_len = 0;
   uint64_t alias_same[AL_N] = {0}, alias_cross[AL_N] = {0};
   uint64_t calls = 0, runs = 0, nontrivial = 0, iso_checks = 0, disagreements = 0, signals_seen = 0, lost = 0, findings = 0, unstable = 0;
@@ -909,6 +937,8 @@ static void print_stats(const Stats & st, const char * mode, uint64_t seed0)
                   ",\"conflicting_call_pairs\":" + std::to_string(st.conflict_pairs) + ",\"conflicting_call_pairs_plain_access\":" + std::to_string(st.plain_conflict_pairs) + ",\"plans_with_conflicts\":" + std::to_string(st.plans_with_conflicts) +
                   ",\"directed_executions\":" + std::to_string(st.directed_execs) +
                   ",\"long_runs\":" + std::to_string(st.long_runs) + ",\"very_long_runs\":" + std::to_string(st.very_long_runs) + ",\"max_plan_len\":" + std::to_string(st.max_plan_len) +
+                  ",\"allocations_inside_library_calls\":" + std::to_string(g_allocs_total) + ",\"allocation_failures_injected\":" + std::to_string(g_alloc_failures_total) +
+                  ",\"plans_with_allocations\":" + std::to_string(st.plans_with_allocations) + ",\"fault_injecting_executions\":" + std::to_string(st.fault_execs) +
                   ",\"hot_loop_runs\":" + std::to_string(st.hot_loop_runs) + ",\"crowd_runs\":" + std::to_string(st.crowd_runs) + ",\"churn_runs\":" + std::to_string(st.churn_runs) + ",\"planned_respawns\":" + std::to_string(st.respawns) +
                   ",\"threads_started\":" + std::to_string(g_threads_total) + ",\"max_threads_in_one_execution\":" + std::to_string(g_threads_max) +
                   ",\"clients_hist\":[" + std::to_string(st.clients_hist[1]) + "," + std::to_string(st.clients_hist[2]) + "," + std::to_string(st.clients_hist[3]) + "," + std::to_string(st.clients_hist[4]) + "," +
@@ -937,9 +967,34 @@ static int do_scan_serial(uint64_t seed0, uint64_t count, const char * hashfile,
     size_t n = p.items.size();
     std::vector<int> fwd(n), rev(n);
     for (size_t i = 0; i < n; ++i) { fwd[i] = static_cast<int>(i); rev[i] = static_cast<int>(n - 1 - i); }
-    std::vector<Res> ra = run_serial(p.items, fwd, p.clients, p.respawn);
+    Outcome oa = run_schedule(serial_schedule(p.items, fwd, p.clients, p.respawn), true, 0);
+    std::vector<Res> ra = oa.res;
     std::vector<Res> rb = run_serial(p.items, rev, p.clients, p.respawn);
     account_plan(st, p, ra, seed, 2);
+    if (oa.complete && oa.allocs > 0)
+      {   // the library allocates: fail one request of one call per extra execution; a call may die, it must not return other bits
+      ++st.plans_with_allocations;
+      for (int v = 0; v < 4 && st.findings < max_findings; ++v)
+        {
+        Rng fr(mix64(seed, 0xa110c + static_cast<uint64_t>(v)));
+        Schedule fs = serial_schedule(p.items, fwd, p.clients, p.respawn);
+        int target = static_cast<int>(fr.below(n));
+        fs.items[target].fail_alloc = 1 + static_cast<int32_t>(fr.below(3));
+        Outcome of = run_schedule(fs, true, 0);
+        ++st.fault_execs;
+        if (!of.complete) continue;
+        for (size_t i = 0; i < n; ++i)
+          {
+          if (ra[i].status != 0 || of.res[i].status != 0 || same(ra[i], of.res[i])) continue;     // died, or agrees
+          Res iso = isolated(p.items[i]); ++st.iso_checks;
+          if (iso.status != 0 || same(of.res[i], iso)) continue;
+          ++st.disagreements;
+          Schedule upto = fs; upto.segs.resize(i + 1);
+          if (report(seed, "fault", upto, static_cast<int>(i), iso)) ++st.findings; else ++st.unstable;
+          break;
+          }
+        }
+      }
     if (p.nontrivial && hf) fwrite(&p.hash, 8, 1, hf);
     // oracle 1: the two histories must agree item by item; any disagreement is confirmed against isolation
     std::vector<int> suspects;
@@ -1185,12 +1240,13 @@ static int do_exec()
     if (sscanf(line, "clients %d", &sc.clients) == 1) continue;
     if (strncmp(line, "seg", 3) == 0) { comp_to_exp.push_back(static_cast<int>(sc.segs.size())); Segment g; g.den = 0; g.budget = 0; g.respawn = pending_respawn; pending_respawn.clear(); sc.segs.push_back(g); continue; }
     if (sscanf(line, "respawn %u", &c) == 1) { pending_respawn.push_back(static_cast<uint8_t>(c)); continue; }
-    if (sscanf(line, "call %u %255s %llx %llx", &c, name, &a, &b) == 4)
+    int fa = 0;
+    if (sscanf(line, "call %u %255s %llx %llx %d", &c, name, &a, &b, &fa) >= 4)
       {
       int oi = op_index(name);
       if (oi < 0) { fprintf(stderr, "hsim: unknown operation %s\n", name); return 2; }
       if (sc.segs.empty()) { fprintf(stderr, "hsim: call before seg\n"); return 2; }
-      Item it{}; it.client = static_cast<uint8_t>(c); it.op = static_cast<uint16_t>(oi); it.a = a; it.b = b; it.alias_of = -1;
+      Item it{}; it.client = static_cast<uint8_t>(c); it.op = static_cast<uint16_t>(oi); it.a = a; it.b = b; it.alias_of = -1; it.fail_alloc = fa;
       sc.items.push_back(it); sc.segs.back().items.push_back(static_cast<int>(sc.items.size() - 1));
       continue;
       }
@@ -1218,11 +1274,14 @@ static int do_exec()
   if (vseg >= 0 && vseg < static_cast<int>(sc.segs.size()) && vcall >= 0 && vcall < static_cast<int>(sc.segs[vseg].items.size())) victim = sc.segs[vseg].items[vcall];
   if (victim < 0) victim = static_cast<int>(sc.items.size()) - 1;
   Outcome o = run_schedule(sc, true, 0);
-  Res iso = isolated(sc.items[victim]);
+  bool faulted = false;
+  for (auto & it : sc.items) if (it.fail_alloc > 0) faulted = true;
+  Item clean = sc.items[victim]; clean.fail_alloc = 0;
+  Res iso = isolated(clean);
   const Res & got = o.res[victim];
   std::string s = "EXEC {\"build\":\"" HSIM_BUILD_CELL "\",\"instrumented\":" + std::to_string(HSIM_INSTRUMENTED) + ",\"complete\":" + (o.complete ? "true" : "false") +
                   ",\"observed\":" + res_json(got) + ",\"isolated\":" + res_json(iso) +
-                  ",\"differs\":" + ((o.complete && got.status != 255 && iso.status != 255 && !same(got, iso)) ? "true" : "false") + ",\"all\":[";
+                  ",\"differs\":" + ((o.complete && got.status != 255 && iso.status != 255 && !same(got, iso) && !(faulted && got.status != 0)) ? "true" : "false") + ",\"all\":[";
   for (size_t i = 0; i < o.res.size(); ++i) s += std::string(i ? "," : "") + res_json(o.res[i]);
   s += "]}";
   puts(s.c_str());
